@@ -584,9 +584,9 @@ func genC10(r *prng.R, kind string) *C10Case {
 var c10Kinds = []string{"string", "int", "slice", "slice-any", "map", "map-any", "chan"}
 
 func C10(j *core.Job) {
-	perBatch, exhaustive := 1500, 1+12+144+1728
+	perBatch, exhaustive := 40000, 1+12+144+1728
 	if j.Thorough() {
-		perBatch, exhaustive = 8000, 1+12+144+1728+20736
+		perBatch, exhaustive = 200000, 1+12+144+1728+20736
 	}
 	rep := j.Rep
 	for _, k := range c10Kinds {
